@@ -11,10 +11,15 @@ Import ListNotations.
 Open Scope Q_scope.
 
 (* ================================================== Part A ================================================== *)
-(* `wf p` (Wf.v, executable) = what the constructors of the real classes enforce: channel ids form a set, sequence
-   children define the same channels, the loop index does not occur in its range, coefficient expressions do not
-   mention t, time dependent parallel values only over atomic templates, scalar mappings only mention the template's
-   channels, no scalar / template.  `denote p rho = Some pcs`: the template is instantiable at rho (Spec.v).
+(* `wf p` (Wf.v, executable): channel ids form a set, sequence children define the same channels, coefficient expressions
+   do not mention t, time dependent parallel values only over atomic templates, scalar mappings only mention the
+   template's channels, no scalar / template (all enforced by the constructors of the real classes) AND the loop index
+   does not occur in its own range (NOT a constructor check: a restriction of the theorems' domain; such loops are judged
+   by the harness' Python oracle only).  `denote p rho = Some pcs`: the template is instantiable at rho AND inside the
+   specification's domain (Spec.v; excluded besides the negative durations / counts of finding negative-duration-empty:
+   a FunctionPT of duration <= 0, atomic parents over an EMPTY operand or over operands of different durations, ranges
+   and repetition counts above 4096).  "The instantiated pulse" in every theorem is this denotation; that the REAL
+   program equals it is established per generated case by check_corr, not by proof.
    `eval rho e = Some v`: the symbolic value evaluates to a number at rho. *)
 
 (* duration: the symbolic duration is the total length of the instantiated pulse *)
@@ -56,6 +61,19 @@ Theorem C07_pad_holds_end_voltage : forall p rho pcs d' dd vs c x,
   exists ppcs v, denote (pad_to p d') rho = Some ppcs /\ p_end ppcs c = Some v /\ v == x /\ total ppcs == total pcs + dd.
 Proof. exact pad_holds_end_voltage. Qed.
 Print Assumptions C07_pad_holds_end_voltage.
+
+(* round 5: the hypotheses of C07_pad_holds_end_voltage hold together on a non-trivial template (three pieces, padded
+   from duration 3 to 10, the unpadded pulse ends on 5) *)
+Theorem C07_pad_nonvacuous :
+  let p := For 1%N (EC 0) (EC 6) (EC 2)
+               (Map (Table [(1%N, [(EC 0, EV 1%N, IHold); (EC 1, EAdd (EV 1%N) (EC 1), ILin)])]) [(2%N, EV 1%N)] [(1%N, Some 4%N)]) in
+  exists pcs dd vs x,
+    wf p = true /\ guard_C07_final_tail p env_empty = true /\ denote p env_empty = Some pcs /\ length pcs = 3%nat /\
+    eval env_empty (ESub (EC 10) (duration_expr p)) = Some dd /\ Qle_bool dd 0 = false /\
+    opt_all (map (fun kv => option_map (fun q => (fst kv, q)) (eval env_empty (snd kv))) (final_expr p)) = Some vs /\
+    p_end pcs 4%N = Some x /\ x == 5 /\ dd == 7.
+Proof. exact pad_nonvacuous. Qed.
+Print Assumptions C07_pad_nonvacuous.
 
 (* atomic templates denote at most one piece (used for time dependent parallel channels) *)
 Theorem C07_atomic_single_piece : forall p rho pcs, atomic p = true -> denote p rho = Some pcs -> (length pcs <= 1)%nat.
